@@ -660,12 +660,33 @@ ASSUMPTIONS = [
     "12 MHz full-speed UTMI configuration, block-RAM descriptor handler (all descriptors are bytes), no skiplist",
 ]
 
-PARTIAL_COMMON = ("theorems are about the event-level model; the link to the gateware is the event-by-event co-simulation "
-                  "(no cycle-level model of the control endpoint, so no cycle_refines_event lemma); the descriptor handler's "
-                  "answer is abstracted by descriptorPacket and co-simulated only (C09 owns it)")
+CYC_MODULES = ["LunaVerif.Lemmas.C07CycSteps", "LunaVerif.Lemmas.C07Refine", "LunaVerif.Lemmas.C07RefineEvents",
+               "LunaVerif.Lemmas.C07RefineMain"]
+CYC_RULE = (" | cycle level (extra_checks, harness/props/c07_cyc.py): cases = (descriptor-set shape, endpoint number, max packet "
+            "size) x a per-cycle micro-host driving the EndpointInterface of the standalone USBControlEndpoint + "
+            "StandardRequestHandler (control transfers with abandoned stages, transactions on other endpoints and for other "
+            "devices between the stages, corrupted SETUP data, PING, bursts of arbitrary tokenizer flags / strobes); every "
+            "interface output, data_requested / status_requested / the forwarded handshake, the handler's strobes and all "
+            "registers are compared with Model/Usb2/ControlCyc.lean in every cycle")
+
+PARTIAL_COMMON = ("the property theorems are about the event-level model, tied to the whole USBDevice by event-by-event "
+                  "co-simulation; the cycle-level model of USBControlEndpoint + request multiplexer + StandardRequestHandler "
+                  "(Model/Usb2/ControlCyc.lean, co-simulated cycle by cycle against the real standalone control endpoint) is "
+                  "proved to simulate the event-level model (cycle_refines_event, cycle_refines_event_run) for every event "
+                  "history in which the standard handler stays outside its three streaming states GET_STATUS / "
+                  "GET_CONFIGURATION / GET_DESCRIPTOR -- i.e. complete SET_ADDRESS, SET_CONFIGURATION, CLEAR_FEATURE, "
+                  "unsupported and non-standard transfers with arbitrary interleaved traffic -- and NOT for those three states "
+                  "(their answers are streamed by the transmitter / descriptor handler, which are inputs of the cycle-level "
+                  "model: the refinement would need the stream contracts of C09/C27), not for configurations with additional "
+                  "request handlers, not for bus resets (device.py's registers; modelled by the two-line regsAfter only); the "
+                  "expansion of an event into cycles encodes the contracts of the token detector, setup decoder and the device "
+                  "core's receiver strobes (proved at C04-C06, not composed formally here); the rx stream pass-through of the "
+                  "DATA_OUT stage is not modelled; the descriptor handler's answer is abstracted by descriptorPacket at event "
+                  "level and co-simulated only (C09 owns it)")
 PARTIAL = {
     "C07": PARTIAL_COMMON,
-    "C08": PARTIAL_COMMON + "; CLEAR_FEATURE's halt-clear strobe is not modelled",
+    "C08": PARTIAL_COMMON + "; CLEAR_FEATURE's halt-clear strobe is modelled at cycle level only "
+           "(halt_clear_strobe_only_on_gated_ack_in_clear_feature), not in the event-level model",
     "C10": PARTIAL_COMMON + "; PING tokens are excluded from unsupported_never_answered (the control endpoint ACKs PING in its OUT "
            "stages whatever the request); 'no state change' covers address/configuration/handler state, not the halt-clear strobe",
 }
